@@ -77,9 +77,16 @@ class BlockModel(GridObject):
             and self.z_cells is not None
             and self.origin is not None
         ):
-            cell_center_u = np.cumsum(self.u_cells) - self.u_cells / 2.0
-            cell_center_v = np.cumsum(self.v_cells) - self.v_cells / 2.0
-            cell_center_z = np.cumsum(self.z_cells) - self.z_cells / 2.0
+            # delimiters are offsets from the origin: start from the first one
+            cell_center_u = (
+                self.u_cell_delimiters[0] + np.cumsum(self.u_cells) - self.u_cells / 2.0
+            )
+            cell_center_v = (
+                self.v_cell_delimiters[0] + np.cumsum(self.v_cells) - self.v_cells / 2.0
+            )
+            cell_center_z = (
+                self.z_cell_delimiters[0] + np.cumsum(self.z_cells) - self.z_cells / 2.0
+            )
 
             angle = np.deg2rad(self.rotation)
             rot = np.r_[
